@@ -213,6 +213,9 @@ def run_for(ex, st):
     i = fresh('i', vl.Int)
     ex.eng.nonneg.add(i.get_id())
     ex.eng._nonneg_keep.append(i)
+    nn = vl.simp(n)
+    ex.eng._nonneg_keep.append(nn)
+    ex.eng.le_len.setdefault(i.get_id(), set()).add(nn.get_id())       # i <= n (assumed next)
     ex.assume(z3.And(i >= 0, i <= n))
     ex.ghost['_i'] = V(VInt(i))
     ex.ghost[iname] = ex.ghost['_i']
@@ -235,6 +238,9 @@ def run_for(ex, st):
                     ex.assume(inst.arg(1))
                 else:
                     ex.assume(inst)
+        i1 = vl.simp(i + 1)                  # inside the body i < n: i + 1 <= n
+        ex.eng._nonneg_keep.append(i1)
+        ex.eng.le_len.setdefault(i1.get_id(), set()).add(nn.get_id())
         ex.iter_envs = dict(getattr(ex, 'iter_envs', {}))
         ex.iter_envs[ord_] = dict(ex.env)
         ex.bind_target(st.target, it.elem(i), st)
